@@ -152,7 +152,9 @@ _SHADOW = {}
 def shadow_root(scratch_dir):
     """The real-process validation runs must not be able to leave anything in the repository (a
     tool under test may write cache files into its working directory): they run in a scratch
-    directory that only holds symlinks to the repository's au/ and tools/."""
+    directory that only holds symlinks to the repository's au/ and tools/.  The tool is therefore
+    started through a symlinked path there; the simulated counterparts of these runs say so too
+    (invoked_via_symlink), so that a tool which is sensitive to that behaves alike on both sides."""
     if scratch_dir not in _SHADOW:
         d = os.path.join(scratch_dir, "shadow-root")
         os.makedirs(d, exist_ok=True)
@@ -203,7 +205,7 @@ def exit_model_validation(ctx):
     args = _env.argv_of(base_sel)
 
     def simulate(env_over, faults, sel=None):
-        plan = {"seed": 0, "run": "exitmodel", "hashseed": 0, "selection": sel or base_sel, "env": dict({"listdir": {}, "extra_entries": {}, "clock": ["2026-01-01T00:00:00"], "git": "exit128", "git_repo": "norepo", "stdout_mode": "block"}, **env_over), "faults": [], "toolchain": {"a": ["g++", "c++14"]}, "probe": {}}
+        plan = {"seed": 0, "run": "exitmodel", "hashseed": 0, "selection": sel or base_sel, "env": dict({"listdir": {}, "extra_entries": {}, "clock": ["2026-01-01T00:00:00"], "git": "exit128", "git_repo": "norepo", "stdout_mode": "block", "invoked_via_symlink": True}, **env_over), "faults": [], "toolchain": {"a": ["g++", "c++14"]}, "probe": {}}
         tres, tdata = ctx.pool.run(plan)
         if not faults:
             return tres, tdata
@@ -256,6 +258,35 @@ def exit_model_validation(ctx):
         r = _real_run_shadow(_env.argv_of(sel2), stdout=subprocess.PIPE, env_extra={"GIT_DIR": "/nonexistent-dir/.git", "GIT_CEILING_DIRECTORIES": "/"})
         s, d = simulate({"git": "exit128"}, [], sel=sel2)
         cases.append({"case": "git exits 128, version from git", "real": r.returncode, "sim": s["status"], "bytes_equal": strip_year(r.stdout) == strip_year(d)})
+    # 6b. a device that fails only near the end: RLIMIT_FSIZE on a regular file, at several distances
+    #     from the end of the output.  This is the case that decides whether a failing *final* flush
+    #     is loud (120) or silently swallowed by CPython's flush_io() (status unchanged).
+    import resource
+
+    ref = _real_run_shadow(args, stdout=subprocess.PIPE)
+    if ref.returncode == 0 and len(ref.stdout) > 20000:
+        n = len(ref.stdout)
+        for cut in (100, 3000, 5000, 7000, 9000):
+            limit = n - cut
+            outp = os.path.join(ctx.pool.scratch, "fsize.out")
+            e = dict(os.environ)
+            e.pop("PYTHONUNBUFFERED", None)
+            e.update({"PYTHONHASHSEED": "0", "PYTHONDONTWRITEBYTECODE": "1", "GIT_DIR": "/nonexistent-dir/.git", "GIT_CEILING_DIRECTORIES": "/"})
+
+            def pre(limit=limit):
+                resource.setrlimit(resource.RLIMIT_FSIZE, (limit, limit))
+
+            with open(outp, "wb") as f:
+                try:
+                    p = subprocess.run([sys.executable, os.path.join(root, _tree.TOOL_REL)] + args, cwd=root, env=e, stdout=f, stderr=subprocess.PIPE, preexec_fn=pre, timeout=REAL_RUN_TIMEOUT_S)
+                    rc = p.returncode
+                except subprocess.TimeoutExpired:
+                    rc = "timeout"
+            with open(outp, "rb") as f:
+                got = f.read()
+            os.unlink(outp)
+            s, d = simulate({}, [{"op": "write", "where": "at_byte", "at_byte": limit, "kind": "EFBIG", "persistent": True}])
+            cases.append({"case": "RLIMIT_FSIZE = output length - %d" % cut, "real": rc, "sim": s["status"], "bytes_equal": strip_year(got) == strip_year(d)})
     # 7. an unreadable input: a unit name whose header does not exist (ENOENT at open)
     sel3 = dict(base_sel, units=["no_such_unit_zzz"])
     r = _real_run_shadow(_env.argv_of(sel3), stdout=subprocess.PIPE)
@@ -264,7 +295,7 @@ def exit_model_validation(ctx):
     # 8. bad usage: argparse exits 2
     sel4 = dict(base_sel)
     r = _real_run_shadow(["--no-such-option"], stdout=subprocess.PIPE)
-    plan4 = {"seed": 0, "run": "exitmodel", "hashseed": 0, "selection": dict(base_sel, argv=["--no-such-option"]), "env": {"listdir": {}, "extra_entries": {}, "clock": ["2026-01-01T00:00:00"], "git": "exit128", "git_repo": "norepo", "stdout_mode": "block"}, "faults": [], "toolchain": {"a": ["g++", "c++14"]}, "probe": {}}
+    plan4 = {"seed": 0, "run": "exitmodel", "hashseed": 0, "selection": dict(base_sel, argv=["--no-such-option"]), "env": {"listdir": {}, "extra_entries": {}, "clock": ["2026-01-01T00:00:00"], "git": "exit128", "git_repo": "norepo", "stdout_mode": "block", "invoked_via_symlink": True}, "faults": [], "toolchain": {"a": ["g++", "c++14"]}, "probe": {}}
     s, d = ctx.pool.run(plan4)
     cases.append({"case": "usage error", "real": r.returncode, "sim": s["status"]})
     agreed = 0
